@@ -21,6 +21,10 @@ TxAll == Mk(SignedClasses \ {"kv", "kvbig", "kvbad"}, A2, 0..2)
            \cup MkKv({"kv", "kvbig"}, A2, 0..2, {"k1", "k2"}, {"a", "b"})
            \cup Mk({"kvbad"}, A2, 0..1)
            \cup Unsigned
+\* thorough exhaustive: two accounts, nonces 0..2, three blocks
+TxL == Mk({"xfer", "create", "call", "value"}, A2, 0..2)
+         \cup MkKv({"kv"}, A2, 0..1, {"k1"}, {"a"})
+         \cup Unsigned
 \* medium: two accounts, fewer classes
 TxM == Mk({"xfer", "create", "call", "revert", "price"}, A2, 0..1)
          \cup MkKv({"kv"}, A2, 0..1, {"k1"}, {"a", "b"})
